@@ -148,7 +148,12 @@ class Interp:
             if r:
                 return (r[0], tri_not(r[1]), tri_not(r[2]))
             return None
-        if cond.get("k") == "mcall" and cond.get("name") in ("any", "all") and cond.get("a") and cond["a"][0].get("k") == "closure":
+        pred = ir.strip(cond["a"][0]) if cond.get("k") == "mcall" and cond.get("a") else None
+        if pred is not None and pred.get("k") == "path" and pred.get("r") != "local" and self.P.fn(pred.get("q") or "") is not None:
+            # a named predicate function instead of a closure: its body is read the same way
+            fb_ = self.P.fn(pred["q"])
+            pred = {"k": "closure", "params": fb_["params"], "body": ir.fn_block(fb_)}
+        if cond.get("k") == "mcall" and cond.get("name") in ("any", "all") and pred is not None and pred.get("k") == "closure":
             # receiver chain must contain .components() on a local
             x = cond["recv"]
             base = None
@@ -166,7 +171,7 @@ class Interp:
             h = ir.local_hid(base)
             if h is None:
                 return None
-            clo = cond["a"][0]
+            clo = pred
             fn_ = clo_truth(clo, "Normal")
             vals = []
             for v in BAD_COMPONENTS:
@@ -612,10 +617,23 @@ def rules(ck, P):
         ok = False
         if len(fw) == 1:
             a0 = fw[0]["a"][0]
+            lets_ = {y["pat"]["hid"]: y["init"] for y in ir.walk_nodes(b["body"]) if y.get("k") == "let" and "init" in y and y["pat"].get("k") == "bind"}
+            h0 = ir.local_hid(ir.strip(ir.strip(a0).get("e", a0)) if ir.strip(a0).get("k") == "ref" else ir.strip(a0))
+            if h0 in lets_:
+                a0 = lets_[h0]
             ok = ir.contains(a0, lambda y: y.get("k") == "mcall" and y.get("name") == "strip_prefix" and ir.local_hid(y["recv"]) == urlh
                              and ir.place_str(y["a"][0]) == "self.prefix")
         ck.check(ok, "R-PREFIX", b["q"], "the inner source receives url.strip_prefix(self.prefix)", "the inner source does not receive the prefix-stripped request url", ir.loc(b))
         guarded = ir.contains(b["body"], lambda y: y.get("k") == "if" and ir.diverges(y["then"]) and ir.contains(y["c"], lambda z: z.get("k") == "mcall" and z.get("name") == "starts_with" and ir.local_hid(z["recv"]) == urlh))
+        if not guarded and len(fw) == 1:
+            # the same guard in positive form: the forwarding call sits in the branch where url.starts_with(prefix) holds
+            for y, ps_, _ in ir.walk(b["body"]):
+                if y is fw[0]:
+                    for p_ in ps_:
+                        if p_.get("k") == "if" and ir.contains(p_["then"], lambda z: z is y):
+                            c_ = ir.unparen(ir.strip(p_["c"]))
+                            if c_.get("k") == "mcall" and c_.get("name") == "starts_with" and ir.local_hid(c_["recv"]) == urlh and ir.place_str(c_["a"][0]) == "self.prefix":
+                                guarded = True
         ck.check(guarded, "R-PREFIX", b["q"] + "|guard", "requests outside the configured URL prefix are rejected first", "no prefix guard before forwarding", ir.loc(b))
 
     # ---- R-NO-DECODE: nothing on the request path percent-decodes after the sanitiser
